@@ -113,6 +113,11 @@ impl MqttState {
             }
         }
 
+        // a publish parked on a packet id collision was accepted after all of the above
+        if let Some(publish) = self.collision.take() {
+            pending.push(Request::Publish(publish));
+        }
+
         // remove and collect pending releases
         for pkid in self.outgoing_rel.ones() {
             let request = Request::PubRel(PubRel::new(pkid as u16));
